@@ -183,6 +183,16 @@ class PEngine(FullEngine):
 
     def dictcomp(self, e, st, hint):
         if len(e.generators) != 1 or e.generators[0].ifs: raise Unsupported('dict comprehension shape')
+        g0 = e.generators[0]
+        # {k: v for k, v in D.items()} with MUTABLE values: a shallow copy -- the new dict shares its value objects with D.  It is modelled as an alias of D
+        # whose key set must not be changed (reads and in-place mutations of the shared values are then exact).
+        if (isinstance(g0.iter, ast.Call) and isinstance(g0.iter.func, ast.Attribute) and g0.iter.func.attr == 'items' and isinstance(g0.target, ast.Tuple) and len(g0.target.elts) == 2
+                and all(isinstance(x, ast.Name) for x in g0.target.elts) and isinstance(e.key, ast.Name) and isinstance(e.value, ast.Name)
+                and e.key.id == g0.target.elts[0].id and e.value.id == g0.target.elts[1].id):
+            d = self.expr(g0.iter.func.value, st)
+            if isinstance(d, PRef) and isinstance(d.t, TDict) and isinstance(d.t.v, (TList, TDict, TObj)):
+                self.need_not_none(st, d, ast.unparse(g0.iter.func.value))
+                r = PRef(d.t, d.root, d.path); r.shallow_copy = True; return r
         if not isinstance(hint, TDict): raise Unsupported('dict comprehension without declared type')
         gen = e.generators[0]; t = hint; kth = t.kth()
         lo, hi, binder, roots, seq = self.iter_source(gen.iter, st)
@@ -206,6 +216,33 @@ class PEngine(FullEngine):
             ax.append(t.keys(R) == dedup_fn(TList(t.k))(seq))                                   # insertion order = first occurrences
         st.pc += ax
         return self.new_root(st, t, R)
+
+    def call_name(self, c, name, st, hint):
+        if name == 'next' and len(c.args) == 1 and isinstance(c.args[0], ast.GeneratorExp) and len(c.args[0].generators) == 1:
+            return self.next_genexp(c, st)
+        return super().call_name(c, name, st, hint)
+
+    def next_genexp(self, c, st):
+        """next(<elt> for <target> in <iter> if <cond>): the element at the FIRST index satisfying the condition; StopIteration excluded by obligation"""
+        a = c.args[0]; gen = a.generators[0]
+        lo, hi, binder, roots, seq = self.iter_source(gen.iter, st)
+        k = FreshConst(IntSort(), 'ni'); mark = len(FRESH_LOG)
+        sub = st.clone(); sub.pc += [lo <= k, k < hi]; base = len(sub.pc)
+        self.bind_target(gen.target, binder(sub, k), sub)
+        conds = [self.cond(x, sub) for x in gen.ifs]; conds = [BoolVal(x) if isinstance(x, bool) else x for x in conds]
+        cnd = And(*conds) if conds else BoolVal(True)
+        elt = self.expr(a.elt, sub)
+        if not isinstance(elt, PV): raise Unsupported('next() over non-scalar elements')
+        facts = sub.pc[base:]; created = FRESH_LOG[mark:]
+        cnd_k, elt_k, phi = self.skolemise([k], created, [cnd, elt.term, And(*facts) if facts else BoolVal(True)])
+        pats = self.trig(seq, k) or [IdxTrig(k)]
+        if facts: st.pc.append(ForAll([k], Implies(And(lo <= k, k < hi), phi), patterns=pats))
+        e = FreshConst(IntSort(), 'ex')
+        self.oblige(st, 'safety', 'next-not-exhausted[%s]' % ast.unparse(c)[:50], Exists([e], And(lo <= e, e < hi, substitute(cnd_k, (k, e)))))
+        w = FreshConst(IntSort(), 'nw'); j = FreshConst(IntSort(), 'nj'); FRESH_LOG.pop()
+        st.pc += [lo <= w, w < hi, substitute(phi, (k, w)), substitute(cnd_k, (k, w)),
+                  ForAll([j], Implies(And(lo <= j, j < w), Not(substitute(cnd_k, (k, j)))), patterns=self.trig(seq, j) or [IdxTrig(j)])]
+        return PV(elt.t, substitute(elt_k, (k, w)))
 
     def any_all(self, c, name, st):
         a = c.args[0]
